@@ -190,13 +190,7 @@ func newRPCEnv(transport, proto string, proc frugal.FProcessor, o rpcOpts) (*rpc
 		served := make(chan error, 1)
 		go func() { served <- srv.Serve() }()
 		// Serve subscribes asynchronously; make sure the subscription is at the broker
-		for i := 0; i < 200; i++ {
-			time.Sleep(500 * time.Microsecond)
-			if sconn.NumSubscriptions() > 0 {
-				break
-			}
-		}
-		sconn.Flush()
+		awaitSubscribed(sconn)
 		e.cleanup = append(e.cleanup, func() { srv.Stop(); <-served })
 		tr = frugal.NewFNatsTransport(cconn, subj, "")
 		if err := tr.Open(); err != nil {
@@ -210,4 +204,14 @@ func newRPCEnv(transport, proto string, proc frugal.FProcessor, o rpcOpts) (*rpc
 	e.tee = &teeFT{FTransport: tr}
 	e.client = newSvcClient(frugal.NewFServiceProvider(e.tee, pf, o.providerMW...), o.clientMW...)
 	return e, nil
+}
+
+// awaitSubscribed waits until a server started with `go srv.Serve()` has subscribed
+// (Serve subscribes asynchronously) and the subscription has reached the broker.
+func awaitSubscribed(conn *nats.Conn) {
+	deadline := time.Now().Add(5 * time.Second)
+	for conn.NumSubscriptions() == 0 && time.Now().Before(deadline) {
+		time.Sleep(200 * time.Microsecond)
+	}
+	conn.Flush()
 }
